@@ -730,7 +730,14 @@ fn cmd_run(prop: &str, tier: &str, seed: u64, workers: u64, hists_override: Opti
         let shim = format!("{vd}/shim/libverifrand.so");
         let st = std::process::Command::new(&exe).args(["minimise", &raw, &min]).stderr(std::process::Stdio::null()).stdout(std::process::Stdio::null()).env("LD_PRELOAD", &shim).env("VERIF_HASH_SEED", rf.hash_seed.to_string()).status();
         let path = if matches!(st, Ok(s) if s.success()) { min.clone() } else { raw.clone() };
-        let rp = std::process::Command::new(&exe).args(["replay", &path]).env("LD_PRELOAD", &shim).env("VERIF_HASH_SEED", rf.hash_seed.to_string()).output().expect("replay");
+        let mut path = path;
+        let mut rp = std::process::Command::new(&exe).args(["replay", &path]).env("LD_PRELOAD", &shim).env("VERIF_HASH_SEED", rf.hash_seed.to_string()).output().expect("replay");
+        if rp.status.code() != Some(1) && path != raw {
+            // the minimised history lost the violation (a probabilistic one, e.g. C20's re-execution differences):
+            // fall back to the unminimised recording
+            path = raw.clone();
+            rp = std::process::Command::new(&exe).args(["replay", &path]).env("LD_PRELOAD", &shim).env("VERIF_HASH_SEED", rf.hash_seed.to_string()).output().expect("replay");
+        }
         if rp.status.code() == Some(1) {
             lines.push(format!("VIOLATION property={} replay={}", rf.prop, path));
             println!("--- violation {}:{} (seed {} history {})\n{}", rf.prop, rf.tag, rf.seed, rf.hist, rf.detail.chars().take(3000).collect::<String>());
